@@ -365,7 +365,22 @@ def timepar_case(sc):
     """ run one time-wrapped scenario on the real code: (scaled variates, raw variates, float32?) """
     import starsim as ss
     fam, kind, u1, u2, dt2 = sc['fam'], sc['kind'], sc['u1'], sc['u2'], sc['dt2']
-    W = (lambda v: getattr(ss, kind)(v, unit=u1, parent_unit=u2, parent_dt=dt2).init())
+    hist = sc.get('hist', 'fresh')
+    def W(v):
+        # how the wrapper reached its final configuration (u1 in steps of dt2 u2): the factor must be that of the FINAL one
+        cls = getattr(ss, kind)
+        if hist == 'fresh':
+            return cls(v, unit=u1, parent_unit=u2, parent_dt=dt2).init()
+        o_u, o_dt = sc['other']
+        tp = cls(v, unit=u1, parent_unit=o_u, parent_dt=o_dt).init()
+        if hist == 'set':
+            tp.set(parent_dt=dt2)
+            if o_u != u2: tp.set(parent_unit=u2)
+        elif hist == 'set-both':
+            tp.set(parent_unit=u2, parent_dt=dt2)
+        elif hist == 'reinit':
+            tp.init(parent_unit=u2, parent_dt=dt2)
+        return tp
     sp = sc['sp']; extra = sc.get('extra', {})
     slots = np.arange(sc['n']); req = sc['req']
     wrapped = {k: (W(v) if k in TIMEKEYS[fam] else v) for k, v in sp.items()}
@@ -383,7 +398,7 @@ def timepar_oracle(sc, ul=None):
     exp = b * factor if sc['kind'] == 'dur' else b / factor
     ok = np.allclose(a, exp, rtol=1e-6 if f32 else 1e-12, atol=0)
     if not ok:
-        return (f"ss.{sc['fam']} with ss.{sc['kind']}-wrapped parameters ({sc['u1']} in steps of {sc['dt2']} {sc['u2']}): variates {a[:3]} are not the unwrapped "
+        return (f"ss.{sc['fam']} with ss.{sc['kind']}-wrapped parameters ({sc['u1']} in steps of {sc['dt2']} {sc['u2']}; wrapper history `{sc.get('hist', 'fresh')}`): variates {a[:3]} are not the unwrapped "
                 f"variates {b[:3]} {'times' if sc['kind'] == 'dur' else 'divided by'} the conversion factor {factor:.6g} (= {exp[:3]})")
     return None
 
@@ -408,7 +423,8 @@ def correspond_timepars(ctx):
             extra = dict(allow_time=True)                 # integer-typed raw variates, time-wrapped bounds
         n = rng.randint(3, 12)
         sc = dict(fam=fam, kind=kind, u1=u1, u2=u2, dt2=dt2, sp=sp, extra=extra, n=n, req=sorted(rng.sample(range(n), rng.randint(1, n))),
-                  tr='tp_%d' % rng.randint(0, 10**6))
+                  tr='tp_%d' % rng.randint(0, 10**6), hist=rng.choice(['fresh', 'fresh', 'set', 'set-both', 'reinit']),
+                  other=(rng.choice(units), rng.choice([1.0, 0.5, 2.0, 0.2])))
         try:
             a, b, f32 = timepar_case(sc)
         except Exception as e:
@@ -421,12 +437,12 @@ def correspond_timepars(ctx):
     for p in plan:
         sc = p['sc']
         exp = np.array([unbits(x) for x in out[i:i + p['n']]]); i += p['n']
-        ctx.case(('timepar', sc['fam'], sc['kind'], sc['u1'], sc['u2'], sc['dt2']), True,
+        ctx.case(('timepar', sc['fam'], sc['kind'], sc['u1'], sc['u2'], sc['dt2'], sc['hist']), True,
                  sample=dict(kind='timepar-scaling', family=sc['fam'], wrapper=sc['kind'], unit=sc['u1'], parent_unit=sc['u2'], parent_dt=sc['dt2'], factor=p['factor']))
         # (float32 families are scaled in float32 by the code; the model evaluates in float64)
         ok = np.allclose(p['a'], exp, rtol=1e-6, atol=0) if p['f32'] else close(p['a'], exp, 8)
         if not ok:
-            ctx.broke('correspondence', 'C05.timepar', f"ss.{sc['fam']} with ss.{sc['kind']} parameters ({sc['u1']} in {sc['u2']}, dt={sc['dt2']}): variates {p['a'][:3]} are not the raw variates {p['b'][:3]} scaled by the conversion factor {p['factor']} ({exp[:3]})",
+            ctx.broke('correspondence', 'C05.timepar', f"ss.{sc['fam']} with ss.{sc['kind']} parameters ({sc['u1']} in {sc['u2']}, dt={sc['dt2']}; wrapper history `{sc['hist']}` from {sc['other']}): variates {p['a'][:3]} are not the raw variates {p['b'][:3]} scaled by the conversion factor {p['factor']} ({exp[:3]})",
                       data=dict(sc=sc))
             msg = timepar_oracle(sc, ul)
             if msg:
